@@ -23,6 +23,13 @@ def check_case(case):
         spec = with_phases(spec, PH3 if case.get("ph3") else PH2, {case["who"]: case["pc"]})
         if case.get("pc_first"):
             spec["pc_first"] = True
+        if case.get("sumname"):   # a leaf load literally named like a summary row
+            loads = [c for c in spec["comps"] if c["k"] in ("PLoad", "ILoad", "RLoad")]
+            for c, nm in zip(loads[::-1], ("System total", "System average")):
+                old_ = c["n"]
+                c["n"] = nm
+                for c2 in spec["comps"]:
+                    c2["p"] = [nm if q == old_ else q for q in c2["p"]]
         if case.get("reconf"):   # configured TWICE: first for every phase (or an unrelated table), then with the final configuration, which replaces the first
             for c in spec["comps"]:
                 if c["n"] == case["who"]:
@@ -213,6 +220,7 @@ def gen_cases(tier):
                         if n <= 2:
                             yield dict(fam="phase", f=f, pal=pal, pol=1, srs=0.37, who=c["n"], pc=["a"], nophase=True)
                             yield dict(fam="phase", f=f, pal=pal, pol=1, srs=0.37, who=c["n"], pc=["a"], reconf=True)
+                            yield dict(fam="phase", f=f, pal=pal, pol=1, srs=0.37, who=c["n"], pc=["a"], sumname=True)
                             yield dict(fam="phase", f=f, pal=pal, pol=1, srs=0.37, who=c["n"], pc={"b": True})   # dict form of an active-phase list
                             for ver in ("1.0.0", "1.7.0", "0.9.9"):
                                 yield dict(fam="phase", f=f, pal=pal, pol=1, srs=0.37, who=c["n"], pc=["a"], oldfile=ver)
